@@ -25,6 +25,13 @@ EmitHeader == (ev.a = "init") => PrintT(<<"SCENARIO", ToJson([ord |-> Ord0, menu
 \* a counterexample of the model (with a Defects switch on) as a replay script: printed when P fails
 Cex(name, P) == P \/ (PrintT(<<"PREFIX", ToJson(tr)>>) /\ FALSE)
 EmitPrefix == (Free /\ mode # "idle") => PrintT(<<"PREFIX", ToJson(tr)>>)
+\* the disk state at a crash, without stamps, for comparison with the crash snapshots of the implementation
+NoStamp(F) == [k \in DOMAIN F |-> [c |-> F[k].c, x |-> F[k].x]]
+\* (a kill after the last write of an invocation leaves the state of the completed invocation: "ret" states count too)
+EmitCrash == (ev.a = "crash" \/ (ev.a = "ret" /\ Script # <<>> /\ g.nuser = Len(Script))) =>
+   PrintT(<<"CRASHSTATE", ToJson([ws |-> NoStamp(ws), cache |-> NoStamp(cache), hist |-> hist,
+                                   fstab |-> [k \in DOMAIN fstab |-> [h |-> fstab[k].h, x |-> fstab[k].x]],
+                                   rdir |-> [root |-> rdir.root, cache |-> rdir.cache, hist |-> rdir.hist, tab |-> rdir.tab]])>>)
 \* for simulation mode: one complete behaviour per line
 EmitDone == (mode = "idle" /\ g.nuser = MaxUser) => PrintT(<<"PREFIX", ToJson(tr)>>)
 =============================================================================
